@@ -272,3 +272,23 @@ pub fn repo_root() -> std::path::PathBuf {
         .map(Into::into)
         .unwrap_or_else(|_| "/repo".into())
 }
+
+/// Puts the child in its own process group, so that `kill_tree` reaches what it spawned itself
+/// (a worker killed by a watchdog must not leave a spinning `oal-cli` behind).
+pub fn own_group(cmd: &mut std::process::Command) -> &mut std::process::Command {
+    use std::os::unix::process::CommandExt;
+    cmd.process_group(0)
+}
+
+/// Kills a child spawned with `own_group` together with its descendants.
+pub fn kill_tree(child: &mut std::process::Child) {
+    let pid = child.id();
+    let _ = std::process::Command::new("kill")
+        .arg("-9")
+        .arg("--")
+        .arg(format!("-{pid}"))
+        .stdout(std::process::Stdio::null())
+        .stderr(std::process::Stdio::null())
+        .status();
+    let _ = child.kill();
+}
